@@ -5,7 +5,7 @@
 (* step) and the bounded workloads.  One module, many .cfg files: each     *)
 (* configuration switches features on through constants.                   *)
 (***************************************************************************)
-EXTENDS PenguinMux
+EXTENDS Bridge
 
 CONSTANTS
   CfgSet,        \* set of Options records an endpoint may be started with
@@ -23,6 +23,7 @@ CONSTANTS
   Binders, MaxBinds,
   Faults,        \* subset of {"cutsrc","endsrc","cutsink"}
   AdvMsgs, MaxAdv, \* adversary: messages that may be injected towards "A", and how many
+  Bridgers,      \* endpoints whose application hands its streams to the bridge (C13)
   MaxHandles,    \* state constraint: handles per endpoint
   MaxCtr         \* state constraint: connect attempts + binds + datagrams in one behaviour
 
@@ -81,6 +82,25 @@ ABindReply(e) == \E r \in DOMAIN st.breq[e], acc \in BOOLEAN :
                     /\ st' \in BindReply(st, e, r, acc)
 ABindDrop(e) == \E r \in DOMAIN st.breq[e] : st' \in BindDrop(st, e, r)
 
+(* the bridge: every poll against every environment of a small alphabet *)
+BrEnvs ==
+  {[rd |-> r, wr |-> w, fl |-> Ans("ready", 0), sh |-> h] :
+     r \in {<<>>, <<Ans("data", 1)>>, <<Ans("data", 1), Ans("data", 1)>>, <<Ans("data", 1), Ans("err", 0)>>,
+            <<Ans("eof", 0)>>, <<Ans("err", 0)>>},
+     w \in {<<>>, <<Ans("ready", 1)>>, <<Ans("ready", 2), Ans("ready", 2)>>, <<Ans("err", 0)>>},
+     h \in {Ans("ready", 0), Ans("pending", 0), Ans("err", 0)}}
+DataIn(env) == Cardinality({i \in DOMAIN env.rd : env.rd[i].k = "data"})
+ABridgeStart(e) ==
+  /\ e \in Bridgers
+  /\ \E h \in AppHs(e) : st' \in BridgeStart(st, e, h)
+ABridgePoll(e) ==
+  \E b \in DOMAIN st.br[e], env \in BrEnvs :
+     /\ st.hnd[e][st.br[e][b].h].woff + DataIn(env) <= MaxWrites
+     /\ st' \in BridgePoll(st, e, b, env)
+     /\ [st' EXCEPT !.obs = NoObs] # [st EXCEPT !.obs = NoObs]
+ABridgeDrop(e) ==
+  \E b \in DOMAIN st.br[e] : st.br[e][b].res \in {"ok", "err"} /\ st' \in BridgeDrop(st, e, b)
+
 (* fine-grained task steps *)
 TUnblock(e) == /\ st.task[e].ph = "run" /\ st.rxblk[e].k # "none"
                /\ st' = Unblock(st, e) /\ st' # st
@@ -116,6 +136,7 @@ Next ==
        \/ ABindStart(e) \/ ABindPoll(e) \/ ANextBind(e) \/ ABindReply(e) \/ ABindDrop(e)
        \/ TUnblock(e) \/ TRecv(e) \/ TSend(e) \/ TSinkErr(e) \/ TDrop(e) \/ TWd(e)
        \/ AFault(e)
+       \/ ABridgeStart(e) \/ ABridgePoll(e) \/ ABridgeDrop(e)
   \/ AAdv
 
 Spec == Init /\ [][Next]_vars
